@@ -1120,7 +1120,7 @@ static int32_t tls13ParseHandshakeMessage(ssl_t *ssl,
                 goto exit;
             }
 # ifdef USE_TLS_1_3_RESUMPTION
-            if (ssl->keys->sessTickets)
+            if (matrixSslHaveSessionTicketKeys(ssl->keys))
             {
                 /* Send NewSessionTicket using app write keys. */
                 ssl->hsState = SSL_HS_TLS_1_3_SEND_NST;
